@@ -24,6 +24,7 @@ PARTIAL = ("PROVED on the model: write_refuses_overwrite, write_then_load, write
            "listing_sorted_by_name, name_order_iff / name_le_imp / name_injective / parse_name for all c,n<100 (decided "
            "counter-example at 100), listing_sorted (genTimeSteps = written steps in chronological order), name_fresh, "
            "history_spec + history_live, merge_exact (start step present or absent), split_exact (attribute renumbered too), "
+           "split_refused_unchanged / splitValid_iff / split_some_valid, "
            "db_between, crash_file_spec (no freshness hypothesis), crash_before_open, complete_run_spec. "
            "CORRESPONDENCE ONLY: that getHistories reports steps in first-occurrence order (order of the returned dict), "
            "the content of a refused split/merge, which interface opens the database (parameter `opener`). "
@@ -200,13 +201,13 @@ class RealHistory:
                 try:
                     self.db.splitDatabase(keep, "-bak")
                 except Exception:  # noqa
-                    self.broken = True
                     # oracle: a refused request must leave the database as it was
                     try:
                         left = sorted(k for k in self.db.h5db.keys() if k[0] == "c" and k[1].isdigit())
                     except Exception as e:  # noqa
                         left = repr(e)
                     if left != sorted(self.shadow):
+                        self.broken = True     # the real object is no longer what the history describes: stop this history
                         ctx.fail("split-refused-but-database-emptied", "every written snapshot stays listed when a split request is refused",
                                  {"ops": self.trace}, observed=left, expected=sorted(self.shadow))
                     return "reject"
@@ -289,8 +290,10 @@ FIXED = [
     # (repaired) split renumbers cycles in the names, in Reactor/cycle and in the group attributes: histories keyed by listed steps
     [("open",), ("set", 1, 0, 1, 1), ("write", ""), ("set", 1, 1, 2, 2), ("write", ""), ("set", 2, 0, 3, 3), ("write", ""),
      ("split", [[1, 0], [1, 1]]), ("steps",), ("load", 0, 1, ""), ("history", BLOCK), ("history", CORE), ("close", True), ("file",)],
-    # a refused split (step not present) has already moved the file away
-    [("open",), ("set", 0, 0, 1, 1), ("write", ""), ("set", 0, 1, 2, 2), ("write", ""), ("split", [[0, 5]])],
+    # (repaired) refused splits - absent step, empty, repeated, labelled-only step - leave the database as it was
+    [("open",), ("set", 0, 0, 1, 1), ("write", ""), ("set", 0, 1, 2, 2), ("write", ""), ("set", 0, 2, 3, 3), ("write", "EOL"),
+     ("split", [[0, 5]]), ("steps",), ("split", []), ("split", [[0, 1], [0, 1]]), ("split", [[0, 2]]), ("file",), ("load", 0, 1, ""),
+     ("history", BLOCK), ("split", [[0, 1]]), ("file",), ("close", True), ("file",)],
     # naming bound: cycle 100 sorts before cycle 99 and is not listed
     [("open",), ("set", 99, 0, 1, 1), ("write", ""), ("set", 100, 0, 2, 2), ("write", ""), ("set", 5, 100, 3, 3), ("write", ""),
      ("steps",), ("file",), ("close", True)],
